@@ -22,6 +22,9 @@ type verifOut struct {
 	q1     []verifEntry // at-least-once, in order
 	q2     []verifEntry // exactly-once: PUBRELs then PUBLISHes
 	k1, k2 int
+	// retryOK: a PUBREL whose write failed after it was recorded; the library
+	// keeps it to retry, so it may follow the regular resend once more
+	retryOK []byte
 }
 
 func verifID1(n uint) uint { return n&publishIDMask | atLeastOnceIDSpace }
@@ -148,6 +151,30 @@ func (o *verifOut) observe2(tag string, count bool) {
 		verifAssert(n == len(o.q1)+len(o.q2), tag+": store holds a different number of outbound records than transfers in flight")
 	}
 	o.store.faults = saved
+}
+
+// reconnect: the connection is lost now (as after any handler error, or by
+// itself) and a healthy broker takes the next one. What the client writes
+// there after CONNECT must be exactly the pending transfers of the shadow
+// model, in order — nothing left over from the failed operation (a queued
+// acknowledgement, a half-applied step) may appear.
+func (o *verifOut) reconnect(tag string) {
+	c := o.c
+	if c.readConn != nil {
+		c.toOffline()
+	}
+	after := verifNextConnection(c, o.store, tag)
+	want := append(verifWireOf(o.q1), verifWireOf(o.q2)...)
+	if len(o.retryOK) != 0 && len(after) == len(want)+len(o.retryOK) {
+		want = append(want, o.retryOK...)
+	}
+	verifAssert(verifBytesEq(after, want), tag+": on the connection after the failure the client writes something else than the pending transfers in order (a packet left over from the failed step, a missing or extra retransmission)")
+	for i := range o.q1 {
+		o.q1[i].written = true
+	}
+	for i := range o.q2 {
+		o.q2[i].written = true
+	}
 }
 
 // exState classifies what an exchange channel holds: 0 empty+open, 1 closed,
